@@ -1394,6 +1394,14 @@ def rule_r12(prog, res) -> None:
         raise AnalysisError(f"C06.R12: only {n} functions with rank-guarded writes found, minimum 2")
 
 
+def rule_r13(prog, res) -> None:
+    """the MPI variant of the ingest pipeline constructs its writer like its multiprocessing and sequential siblings (same schema source, same options): a writer with another schema raises on the writer rank while every other rank blocks in its next collective (= C02.R6)"""
+    from . import c02
+    from .common import shared_rule
+
+    shared_rule(res, c02.rule_r6, "C02", "C02.R6", "C06.R13")
+
+
 RULES = [
     ("C06.R1", rule_r1, QUICK),
     ("C06.R2", rule_r2, QUICK),
@@ -1408,4 +1416,5 @@ RULES = [
     ("C06.R10", rule_r10, QUICK),
     ("C06.R11", rule_r11, QUICK),
     ("C06.R12", rule_r12, QUICK),
+    ("C06.R13", rule_r13, QUICK),
 ]
